@@ -40,3 +40,55 @@ def unit_subseq():
     U.verify(None, "search_sub_seq")
     U.assume("sequence elements are an uninterpreted sort with equality; == on sequences is length + elementwise equality")
     return U
+
+
+def unit_batcher():
+    """Batcher / BatcherIter on a single sequence (tuple inputs: bounded layer only)"""
+    U = Unit("C19/Batcher+BatcherIter", "C19")
+    G = U.module("windpyutils/generic.py")
+    B = G.cls("Batcher", fields={"data": SeqS(ANY), "batch_size": INT})
+    B.invariant("self.batch_size >= 1", "batch_size>=1")
+    m = B.method("__init__", {"batchify_data": SeqS(ANY), "batch_size": INT})
+    m.raises("ValueError", when="batch_size <= 0")
+    m.modifies("self.data", "self.batch_size")
+    m.ensures("self.data == batchify_data and self.batch_size == batch_size")
+    m = B.method("__len__", {}, INT, locals={"samples": INT})
+    m.ensures("result >= 0 and (result - 1) * self.batch_size < len(self.data) and len(self.data) <= result * self.batch_size",
+              "len=ceil(n/batch_size)")
+    m = B.method("__getitem__", {"item": INT}, SeqS(ANY), locals={"offset": INT})
+    m.requires("item >= 0")
+    L = "(item * self.batch_size >= len(self.data))"
+    m.raises("IndexError", when=L)
+    m.ensures("len(result) == min(self.batch_size, len(self.data) - item * self.batch_size) and len(result) >= 1", "batch-size(last-one-shorter-non-empty)")
+    m.ensures("forall(t, 0, len(result), result[t] == self.data[item * self.batch_size + t], trigger=result[t])",
+              "batch-i=data[i*bs:(i+1)*bs]")
+    I = G.cls("BatcherIter", fields={"data": SeqS(ANY), "batch_size": INT})
+    I.invariant("self.batch_size >= 1", "batch_size>=1")
+    m = I.method("__init__", {"batchify_data": SeqS(ANY), "batch_size": INT})
+    m.raises("ValueError", when="batch_size <= 0")
+    m.modifies("self.data", "self.batch_size")
+    m.ensures("self.data == batchify_data and self.batch_size == batch_size")
+    m = I.method("__iter__", {}, yields=SeqS(ANY), locals={"batch": SeqS(ANY)})
+    m.reads("BatcherIter.data", "BatcherIter.batch_size")
+    m.loop(1), m.loop(2)            # tuple branch (not reachable for a single sequence): bounded layer only
+    m.ghost_entry("g_off = lam(i, 0)")
+    lp = m.loop(3)
+    k = "len(yielded)"
+    lp.invariant("len(batch) < self.batch_size and g_off[%s] + len(batch) == _i3 and g_off[0] == 0" % k)
+    lp.invariant("forall(t, 0, len(batch), batch[t] == self.data[g_off[%s] + t], trigger=batch[t])" % k)
+    lp.invariant("forall(j, 0, %s, len(yielded[j]) == self.batch_size and g_off[j + 1] == g_off[j] + self.batch_size"
+                 " and forall(t, 0, self.batch_size, yielded[j][t] == self.data[g_off[j] + t]), trigger=yielded[j])" % k)
+    lp.ghost_at_end("g_off = aset(g_off, len(yielded), _i3 - len(batch))")
+    m.ghost_exit("g_off = aset(g_off, len(yielded), len(self.data))")
+    m.ensures("g_off[0] == 0 and g_off[len(yielded)] == len(self.data)", "batches-cover-the-input-exactly")
+    m.ensures("forall(j, 0, len(yielded), 1 <= len(yielded[j]) and len(yielded[j]) <= self.batch_size and g_off[j + 1] == g_off[j] + len(yielded[j])"
+              " and forall(t, 0, len(yielded[j]), yielded[j][t] == self.data[g_off[j] + t]), trigger=yielded[j])",
+              "consecutive-non-empty-batches:concatenation=input")
+    m.ensures("forall(j, 0, len(yielded) - 1, len(yielded[j]) == self.batch_size, trigger=yielded[j])", "all-but-the-last-batch-are-full")
+    for f in ("__init__", "__len__", "__getitem__"):
+        U.verify("Batcher", f)
+    for f in ("__init__", "__iter__"):
+        U.verify("BatcherIter", f)
+    U.assume("a batched iterable is a finite sequence evaluated once; tuple inputs (lock-step batching) are covered by the bounded layer only")
+    U.assume("integer // is Python floor division on mathematical integers (nonlinear obligations use z3's NLA)")
+    return U
